@@ -94,6 +94,10 @@ def render_contract(c, role, lines, ind):
     raise ValueError(err)
 
 
+# set to ", enabled=True" to spell the flag out (C15 reruns cases under python -O, where the default is off)
+ENABLED_SUFFIX = ""
+
+
 def render_snapshot(s, lines, ind):
     fn = "W.acapture" if s["kind"] == "awaitable" else "W.capture"
     kws = ", ".join("'%s': %s" % (n, n) for n in s["params"])
@@ -131,11 +135,11 @@ def render_decorators(level, helper_lines, ind, pattern):
     decos = []
     for k, item in applied:
         if k == "r":
-            decos.append("@icontract.require(%s)" % render_contract(item, "pre", helper_lines, ind))
+            decos.append("@icontract.require(%s%s)" % (render_contract(item, "pre", helper_lines, ind), ENABLED_SUFFIX))
         elif k == "e":
-            decos.append("@icontract.ensure(%s)" % render_contract(item, "post", helper_lines, ind))
+            decos.append("@icontract.ensure(%s%s)" % (render_contract(item, "post", helper_lines, ind), ENABLED_SUFFIX))
         else:
-            decos.append("@icontract.snapshot(%s)" % render_snapshot(item, helper_lines, ind))
+            decos.append("@icontract.snapshot(%s%s)" % (render_snapshot(item, helper_lines, ind), ENABLED_SUFFIX))
     return [ind + d for d in reversed(decos)]
 
 
@@ -175,7 +179,7 @@ def render_case(n, case):
                 extra = ""
                 if c.get("check_on"):
                     extra = ", check_on=icontract.InvariantCheckEvent.%s" % c["check_on"]
-                inv_lines.insert(0, "%s@icontract.invariant(%s%s)" % (ind1, arg, extra))
+                inv_lines.insert(0, "%s@icontract.invariant(%s%s%s)" % (ind1, arg, extra, ENABLED_SUFFIX))
             L += inv_helpers
         L += helpers
         L += inv_lines
